@@ -271,6 +271,7 @@ func (pc *ProviderCache) Refresh(ctx context.Context) error {
 	defer func() {
 		<-pc.writeLock
 	}()
+	verifPoint("refresh.locked")
 
 	pc.seq++
 	seq := pc.seq
@@ -352,6 +353,7 @@ func (pc *ProviderCache) Refresh(ctx context.Context) error {
 	// If the update map is small relative to the main map, do not generate a
 	// new main map yet.
 	if !needMerge(len(updates), len(read.m)) {
+		verifPoint("refresh.publish")
 		pc.read.Store(&readOnly{m: read.m, u: updates})
 		return nil
 	}
@@ -367,6 +369,7 @@ func (pc *ProviderCache) Refresh(ctx context.Context) error {
 	}
 
 	// Replace old readOnly map with new.
+	verifPoint("refresh.publish.merged")
 	pc.read.Store(&readOnly{m: m})
 	return nil
 }
@@ -423,6 +426,7 @@ func (pc *ProviderCache) fetchMissing(ctx context.Context, pid peer.ID) (*readPr
 	defer func() {
 		<-pc.writeLock
 	}()
+	verifPoint("miss.locked")
 
 	seq := pc.seq
 
@@ -496,6 +500,7 @@ func (pc *ProviderCache) fetchMissing(ctx context.Context, pid peer.ID) (*readPr
 	// If the update map is small relative to the main map, do not generate a
 	// new main map yet.
 	if !needMerge(len(updates), len(read.m)) {
+		verifPoint("miss.publish")
 		pc.read.Store(&readOnly{m: read.m, u: updates})
 		return rpinfo, nil
 	}
@@ -511,6 +516,7 @@ func (pc *ProviderCache) fetchMissing(ctx context.Context, pid peer.ID) (*readPr
 	}
 
 	// Replace old readOnly map with new.
+	verifPoint("miss.publish.merged")
 	pc.read.Store(&readOnly{m: m})
 
 	return rpinfo, nil
